@@ -456,16 +456,57 @@ func (x *c04X) wellFormed() bool {
 	return true
 }
 
+// compact spellings of the strings that occur in almost every row (the cost of a cases file is
+// the number of nodes Coq has to parse): attribute/member names, type names, registered tag names
+var c04Reg = ttlv.VerifRegistryDump()
+
+var c04TypeCodes = map[string]int{"Structure": 1, "Integer": 2, "LongInteger": 3, "BigInteger": 4, "Enumeration": 5, "Boolean": 6,
+	"TextString": 7, "ByteString": 8, "DateTime": 9, "Interval": 10}
+
+func c04KeyStr(s string) string {
+	switch s {
+	case "type":
+		return "aT"
+	case "value":
+		return "aV"
+	case "tag":
+		return "aG"
+	}
+	return c04Str([]byte(s))
+}
+
+func c04NameStr(s string) string {
+	if s == "TTLV" {
+		return "nT"
+	}
+	if t, ok := c04Reg.TagByName[s]; ok && c04Reg.TagNames[t] == s {
+		return fmt.Sprintf("(tn G %d)", t)
+	}
+	return c04Str([]byte(s))
+}
+
+func c04AttrVal(k, v string) string {
+	if k == "type" {
+		if c, ok := c04TypeCodes[v]; ok {
+			return fmt.Sprintf("(tyn %d)", c)
+		}
+	}
+	if k == "tag" {
+		return c04NameStr(v)
+	}
+	return c04Str([]byte(v))
+}
+
 func (x *c04X) coq() string {
 	as := make([]string, len(x.Attrs))
 	for i, a := range x.Attrs {
-		as[i] = "(" + c04Str([]byte(a[0])) + ", " + c04Str([]byte(a[1])) + ")"
+		as[i] = "(" + c04KeyStr(a[0]) + ", " + c04AttrVal(a[0], a[1]) + ")"
 	}
 	ks := make([]string, len(x.Kids))
 	for i, k := range x.Kids {
 		ks[i] = k.coq()
 	}
-	return fmt.Sprintf("(XE %s %s %s %s)", c04Str([]byte(x.Name)), h.List(as), h.List(ks), h.Bool(x.Cut))
+	return fmt.Sprintf("(XE %s %s %s %s)", c04NameStr(x.Name), h.List(as), h.List(ks), h.Bool(x.Cut))
 }
 
 func c04XList(l []*c04X) string {
@@ -585,7 +626,14 @@ func (j *c04J) coq() string {
 	}
 	s := make([]string, len(j.Keys))
 	for i := range j.Keys {
-		s[i] = "(" + c04Str([]byte(j.Keys[i])) + ", " + j.Vals[i].coq() + ")"
+		v := j.Vals[i]
+		vs := ""
+		if v.K == 's' && (j.Keys[i] == "type" || j.Keys[i] == "tag") {
+			vs = "(JStr " + c04AttrVal(j.Keys[i], v.S) + ")"
+		} else {
+			vs = v.coq()
+		}
+		s[i] = "(" + c04KeyStr(j.Keys[i]) + ", " + vs + ")"
 	}
 	return "(JObj " + h.List(s) + ")"
 }
@@ -1047,11 +1095,46 @@ func (it *c04Item) representable(format string) bool {
 
 // ------------------------------------------------------------------ part (a): writer rows + round trip oracle
 
-type c04Tables struct {
-	xw, jw, xr, jr []string
+type c04RRow struct {
+	doc string
+	ops []string
 }
 
-func (c04t *c04Tables) count() int { return len(c04t.xw) + len(c04t.jw) + len(c04t.xr) + len(c04t.jr) }
+type c04Tables struct {
+	xw, jw []string
+	xr, jr []*c04RRow
+	idx    map[string]int // format|doc -> row
+	nops   int
+}
+
+func (c04t *c04Tables) count() int { return len(c04t.xw) + len(c04t.jw) + c04t.nops }
+
+// addRead records one (operation, outcome) on a document; operations on the same document share its tree.
+func (c04t *c04Tables) addRead(format, key, docCoq, op string) int {
+	if c04t.idx == nil {
+		c04t.idx = map[string]int{}
+	}
+	c04t.nops++
+	rows := &c04t.xr
+	if format == "json" {
+		rows = &c04t.jr
+	}
+	if i, ok := c04t.idx[format+"|"+key]; ok {
+		(*rows)[i].ops = append((*rows)[i].ops, op)
+		return i
+	}
+	*rows = append(*rows, &c04RRow{doc: docCoq, ops: []string{op}})
+	c04t.idx[format+"|"+key] = len(*rows) - 1
+	return len(*rows) - 1
+}
+
+func c04RRows(l []*c04RRow) []string {
+	out := make([]string, len(l))
+	for i, r := range l {
+		out[i] = "(" + r.doc + ", " + h.List(r.ops) + ")"
+	}
+	return out
+}
 
 func c04CaseA(c *h.Ctx, t *c04Tables, it *c04Item, model bool) {
 	wire, pan := c04Wire(it)
@@ -1128,11 +1211,17 @@ func c04CaseA(c *h.Ctx, t *c04Tables, it *c04Item, model bool) {
 		if !model {
 			continue
 		}
+		wcoq := func(o c04Out) string {
+			if o.Class == "ok" && bytes.Equal(o.Bytes, wire) {
+				return "OWire"
+			}
+			return o.coq()
+		}
 		if format == "xml" {
-			t.xw = append(t.xw, fmt.Sprintf("(%s, %s, %s, %s)", it.coq(), xt[0].coq(), o1.coq(), o2.coq()))
+			t.xw = append(t.xw, fmt.Sprintf("(%s, %s, %s, %s)", it.coq(), xt[0].coq(), wcoq(o1), wcoq(o2)))
 			c.IndexCase("mism_xml_write", len(t.xw)-1, cj)
 		} else {
-			t.jw = append(t.jw, fmt.Sprintf("(%s, %s, %s, %s)", it.coq(), jt.coq(), o1.coq(), o2.coq()))
+			t.jw = append(t.jw, fmt.Sprintf("(%s, %s, %s, %s)", it.coq(), jt.coq(), wcoq(o1), wcoq(o2)))
 			c.IndexCase("mism_json_write", len(t.jw)-1, cj)
 		}
 	}
@@ -1232,11 +1321,11 @@ func driveC04(c *h.Ctx) error {
 		}
 	}
 	// random trees
-	n := c.Pick(500, 6000)
+	n := c.Pick(300, 6000)
 	for i := 0; i < n; i++ {
 		g.r = c.Rng.Fork(uint64(1000 + i))
 		it := g.tree(3, i%3 == 0)
-		c04CaseA(c, t, it, it.size() <= 40 && (c.Quick() || i%4 == 0))
+		c04CaseA(c, t, it, it.size() <= c.Pick(14, 40) && (c.Quick() || i%4 == 0))
 		if i%97 == 0 {
 			c.Sample(map[string]any{"part": "a", "item": it})
 		}
@@ -1269,10 +1358,10 @@ func c04WriteCases(c *h.Ctx, g *c04Gen, t *c04Tables) error {
 	d, e = h.Chunk("jw", "item * jvalue * oc * oc", t.jw, 200)
 	sb.WriteString(d)
 	fmt.Fprintf(&sb, "Definition mism_json_write := Eval vm_compute in bad_idx (jw_ok G) %s 0.\nPrint mism_json_write.\n", e)
-	d, e = h.Chunk("xr", "list xelem * bool * option item * oc", t.xr, 200)
+	d, e = h.Chunk("xr", "list xelem * bool * list (option item * oc)", c04RRows(t.xr), 200)
 	sb.WriteString(d)
 	fmt.Fprintf(&sb, "Definition mism_xml_read := Eval vm_compute in bad_idx (xr_ok G) %s 0.\nPrint mism_xml_read.\n", e)
-	d, e = h.Chunk("jr", "jvalue * option item * oc", t.jr, 200)
+	d, e = h.Chunk("jr", "jvalue * list (option item * oc)", c04RRows(t.jr), 200)
 	sb.WriteString(d)
 	fmt.Fprintf(&sb, "Definition mism_json_read := Eval vm_compute in bad_idx (jr_ok G) %s 0.\nPrint mism_json_read.\n", e)
 	return c.WriteCases("cases_C04.v", sb.String(), t.count()+1)
@@ -1368,8 +1457,8 @@ func c04CaseB(c *h.Ctx, t *c04Tables, d c04Doc, model bool) c04Out {
 	if d.Format == "xml" {
 		roots, cut := c04ParseXML(doc)
 		if model {
-			t.xr = append(t.xr, fmt.Sprintf("(%s, %s, %s, %s)", c04XList(roots), h.Bool(cut), script, o.coq()))
-			c.IndexCase("mism_xml_read", len(t.xr)-1, cj)
+			i := t.addRead("xml", d.Doc, c04XList(roots)+", "+h.Bool(cut), "("+script+", "+o.coq()+")")
+			c.IndexCase("mism_xml_read", i, cj)
 		}
 	} else {
 		jt, err := c04ParseJSON(doc)
@@ -1380,8 +1469,8 @@ func c04CaseB(c *h.Ctx, t *c04Tables, d c04Doc, model bool) c04Out {
 			return o
 		}
 		if model {
-			t.jr = append(t.jr, fmt.Sprintf("(%s, %s, %s)", jt.coq(), script, o.coq()))
-			c.IndexCase("mism_json_read", len(t.jr)-1, cj)
+			i := t.addRead("json", d.Doc, jt.coq(), "("+script+", "+o.coq()+")")
+			c.IndexCase("mism_json_read", i, cj)
 		}
 	}
 	return o
